@@ -71,129 +71,63 @@ def run(chk):
             )
     chk.floor("type literals compared in lint", nv, 14)
 
-    # ---- H: handle / final raise --------------------------------------
     body = body_without_doc(fn)
-    handle = None
-    nested = [st for st in body if isinstance(st, ast.FunctionDef)]
-    best = -1
-    for st in nested:
-        # the reporting helper is the nested def the guards call
-        uses = sum(1 for n in walk_no_nested(fn) if isinstance(n, ast.Call) and isinstance(n.func, ast.Name) and n.func.id == st.name)
-        if uses > best:
-            best, handle = uses, st
-    if handle is None or best < 3:
-        raise AnalysisError("lint(): reporting helper (nested def called from the guards) not found", FILE, fn.lineno)
-    hname = handle.name
-    # under fail_fast: raise ValueError
-    ok_raise = False
-    ok_append = False
-    errlist = None
-    for st in handle.body:
-        if isinstance(st, ast.If) and norm(st.test) == "fail_fast":
-            for r in st.body:
-                if isinstance(r, ast.Raise) and raise_exc_name(r) == "ValueError":
-                    ok_raise = True
-        if isinstance(st, ast.If) and norm(st.test) == "not fail_fast":
-            for r in st.orelse:
-                if isinstance(r, ast.Raise) and raise_exc_name(r) == "ValueError":
-                    ok_raise = True
-        for n in ast.walk(st):
-            if isinstance(n, ast.Call) and method_name(n) == "append" and isinstance(n.func, ast.Attribute) and isinstance(n.func.value, ast.Name):
-                ok_append = True
-                errlist = n.func.value.id
-    all_raises = [n for n in ast.walk(handle) if isinstance(n, ast.Raise)]
-    only_value = all(raise_exc_name(r) == "ValueError" for r in all_raises)
-    chk.ob("C20.H.handle-raises-ValueError", "lint.handle::fail_fast", ok_raise and only_value, file=FILE, func="lint.handle", line=handle.lineno,
-           fact={"raises": [raise_exc_name(r) for r in all_raises], "guarded_by_fail_fast": ok_raise}, expect="raise ValueError(...) under `if fail_fast`")
-    chk.ob("C20.H.handle-accumulates", "lint.handle::append", ok_append, file=FILE, func="lint.handle", line=handle.lineno,
-           fact={"error_list": errlist}, expect="errors.append(s) when not fail_fast")
-    # final raise: an `if <errlist>:` at top level whose body raises ValueError, and no earlier top-level return
-    final_ok = False
-    early_return = False
-    for st in body:
-        if isinstance(st, ast.Return):
-            early_return = True
-        if isinstance(st, ast.If) and errlist and norm(st.test) in (errlist, f"len({errlist}) > 0", f"len({errlist})", f"{errlist} != []"):
-            rs = [n for b in st.body for n in walk_no_nested(b) if isinstance(n, ast.Raise)]
-            if rs and all(raise_exc_name(r) == "ValueError" for r in rs) and isinstance(st.body[-1], ast.Raise) and not early_return:
-                final_ok = True
-    chk.ob("C20.H.final-raise", "lint::if errors: raise ValueError", final_ok, file=FILE, func="lint", line=fn.lineno,
-           fact={"error_list": errlist, "early_return": early_return}, expect="accumulated errors raise ValueError after both loops")
-    # any raise directly in lint (outside handle) must be ValueError
-    for n in walk_no_nested(fn):
-        if isinstance(n, ast.Raise):
-            chk.ob("C20.H.only-ValueError", f"lint::raise {raise_exc_name(n)}", raise_exc_name(n) == "ValueError", file=FILE, func="lint", line=n.lineno,
-                   fact={"raises": raise_exc_name(n)}, expect="ValueError")
-
-    # ---- N: node predicate --------------------------------------------
-    node_loop = None
-    bb_loop = None
-    for st in body:
-        if isinstance(st, ast.For):
-            if is_nodes_iter(st.iter, cname) and isinstance(st.target, ast.Name):
-                node_loop = st
-            elif dotted(st.iter) in (f"{cname}.blackboxes.items()",) and isinstance(st.target, ast.Tuple):
-                bb_loop = st
-    if node_loop is None:
-        raise AnalysisError("lint(): per-node loop `for g in c.nodes()` not found", FILE, fn.lineno)
-    if bb_loop is None:
-        raise AnalysisError("lint(): blackbox loop `for name, bb in c.blackboxes.items()` not found", FILE, fn.lineno)
-    gvar = node_loop.target.id
-
-    # constants of the function that the loop body may use (named lists)
-    pre_env = {}
-    for st in body:
-        if st is node_loop:
-            break
-        if isinstance(st, ast.Assign) and len(st.targets) == 1 and isinstance(st.targets[0], ast.Name):
-            from ..core import ConstEnv
-
-            try:
-                pre_env[st.targets[0].id] = ConstEnv(repo, FILE, pre_env).eval(st.value)
-            except ValueError:
-                pass
-    pre_env["supported_types"] = list(sup)
+    # names a refactoring may bind at module level or in the function prologue (lookup tables, helpers)
     from ..pkgenv import Package
 
-    for k_, v_ in Package(repo).env(FILE).items():
-        pre_env.setdefault(k_, v_)
+    pre_env = dict(Package(repo).env(FILE))
+    pre_env["supported_types"] = list(sup)
 
-    ints = [n.value for n in ast.walk(node_loop) if isinstance(n, ast.Constant) and isinstance(n.value, int) and not isinstance(n.value, bool)]
+    # ---- N: node predicate, by evaluating the whole function on one-node-under-test model circuits ---------
+    # Robust to any restructuring of lint (helper closures, generators, dispatch tables): the body is evaluated for
+    # every abstract state of one node g whose neighbours are always lint-clean; lint must raise ValueError exactly
+    # for the states that violate a documented rule, in both fail_fast modes, and nothing else may escape.
+    ints = [n.value for n in ast.walk(fn) if isinstance(n, ast.Constant) and isinstance(n.value, int) and not isinstance(n.value, bool) and 0 <= n.value < 50]
+    ints = [i for i in ints if i != 10]  # 10 is the length of the error summary, not a fan-in bound
     K = max([2] + ints) + 1
     if K > 5:
-        raise AnalysisError(f"lint(): integer constant {K-1} in a guard; abstract count domain would explode", FILE, node_loop.lineno)
+        raise AnalysisError(f"lint(): integer constant {K-1} in a guard; abstract count domain would explode", FILE, fn.lineno)
+
+    def run_lint_node(c, flags, fail_fast):
+        env = dict(pre_env)
+        env.update({cname: c, "fail_fast": fail_fast, "undriven": flags[0], "unloaded": flags[1], "single_input_gates": flags[2]})
+        bi = BlockInterp(env, max_steps=100000)
+        try:
+            r = bi.run(body)
+        except ModelRaise as e:
+            return ("raise", e.kind)
+        except Unsupported as e:
+            raise AnalysisError(f"lint(): unrecognised idiom: {e}", FILE, fn.lineno)
+        return r if isinstance(r, tuple) else ("return", None)
 
     types = list(sup) + [MISSING, "bogus_type"]
     fo_states = [(0, None)] + [(k, ft) for k in range(1, min(K, 3) + 1) for ft in ("buf", "not")]
     name_forms = [("n0", {}), ("u0.p", {"u0": True}), ("u1.p", {})]
     flag_sets = list(itertools.product([False, True], repeat=3))
     if chk.tier == "quick":
-        # one-at-a-time plus all-on / all-off; thorough enumerates all 8
         flag_sets = [(False, False, False), (True, False, False), (False, True, False), (False, False, True), (True, True, True)]
-
     n_states = 0
     bad = {}
-    samples_ok = 0
     for t in types:
         for fic in range(0, K + 1):
             for foc, fot in fo_states:
                 for out in (False, True):
                     for g, bbs in name_forms:
+                        if chk.tier == "quick" and g != "n0" and (t not in ("and", "bb_input", "input", MISSING) or fic > 1 or foc > 1):
+                            continue  # the dotted-name rule does not interact with the type / count rules; thorough crosses everything
+                        attrs = {g: {"output": out}}
+                        if t != MISSING:
+                            attrs[g]["type"] = t
+                        edges = []
+                        for i in range(fic):
+                            attrs[f"fi{i}"] = {"type": "input", "output": False}
+                            edges.append((f"fi{i}", g))
+                        for i in range(foc):
+                            attrs[f"fo{i}"] = {"type": fot, "output": True}
+                            edges.append((g, f"fo{i}"))
+                        bbmap = {k: MBlackBox("bb", [], []) for k in bbs}
                         for undriven, unloaded, sig in flag_sets:
                             n_states += 1
-                            attrs = {g: {"output": out}}
-                            if t != MISSING:
-                                attrs[g]["type"] = t
-                            edges = []
-                            for i in range(fic):
-                                attrs[f"fi{i}"] = {"type": "input", "output": False}
-                                edges.append((f"fi{i}", g))
-                            for i in range(foc):
-                                attrs[f"fo{i}"] = {"type": fot, "output": True}
-                                edges.append((g, f"fo{i}"))
-                            bbmap = {k: MBlackBox("bb", [], []) for k in bbs}
-                            c = MCircuit(attrs, edges, bbmap, iter_only=[g])
-                            # reference
                             clauses = []
                             if t == MISSING:
                                 clauses.append("no-type")
@@ -219,56 +153,24 @@ def run(chk):
                                     dont_care = True  # a blackbox input pin never has a load; either reading of "unloaded" is accepted
                                 else:
                                     clauses.append("unloaded")
+                            # the fan-in neighbours are inputs that feed only g: with g typed so that the edge is illegal they stay clean themselves
                             want = bool(clauses)
                             for fail_fast in (True, False):
-                                events = []
-
-                                def on_call(call, interp, events=events):
-                                    if isinstance(call.func, ast.Name) and call.func.id == hname:
-                                        events.append("handle")
-                                        if fail_fast:
-                                            raise _Stop()
-                                        return True
-                                    return False
-
-                                env = dict(pre_env)
-                                env.update({cname: c, gvar: g, "undriven": undriven, "unloaded": unloaded, "single_input_gates": sig, "fail_fast": fail_fast})
-                                bi = BlockInterp(env, on_call=on_call)
-                                escaped = None
-                                try:
-                                    r = bi.run(node_loop.body)
-                                    if isinstance(r, tuple) and r[0] == "raise":
-                                        if r[1] == "ValueError":
-                                            events.append("handle")
-                                        else:
-                                            escaped = r[1]
-                                    elif isinstance(r, tuple) and r[0] == "return":
-                                        escaped = "return-inside-loop"
-                                except _Stop:
-                                    pass
-                                except ModelRaise as e:
-                                    escaped = e.kind
-                                except Unsupported as e:
-                                    raise AnalysisError(f"lint(): unrecognised idiom in a per-node guard: {e}", FILE, node_loop.lineno)
-                                got = "handle" in events
+                                c = MCircuit({k: dict(v) for k, v in attrs.items()}, edges, bbmap)
+                                r = run_lint_node(c, (undriven, unloaded, sig), fail_fast)
+                                got = r[0] == "raise" and r[1] == "ValueError"
                                 state = {"type": t, "fanin": fic, "fanout": foc, "load_type": fot, "output": out, "name": g, "instance_known": bool(bbmap),
                                          "undriven": undriven, "unloaded": unloaded, "single_input_gates": sig, "fail_fast": fail_fast}
-                                if escaped:
-                                    # under fail_fast a ValueError reported first is fine
-                                    if not (fail_fast and got):
-                                        key = f"escape:{escaped}:" + (clauses[0] if clauses else f"type={t}")
-                                        bad.setdefault(("C20.N.only-ValueError-escapes", key), state)
-                                        continue
+                                if r[0] == "raise" and r[1] != "ValueError":
+                                    key = f"escape:{r[1]}:" + (clauses[0] if clauses else f"type={t}")
+                                    bad.setdefault(("C20.N.only-ValueError-escapes", key), state)
+                                    continue
                                 if dont_care:
                                     continue
                                 if want and not got:
-                                    for cl in clauses[:1]:
-                                        bad.setdefault(("C20.N.rule-missed", f"missed:{cl}"), state)
+                                    bad.setdefault(("C20.N.rule-missed", f"missed:{clauses[0]}" + ("" if fail_fast else ":accumulating-mode")), state)
                                 elif got and not want:
                                     bad.setdefault(("C20.N.spurious-report", f"spurious:type={t}:fanin={min(fic,2)}:fanout={min(foc,2)}"), state)
-                                else:
-                                    samples_ok += 1
-    # one obligation per reference clause (so that the evidence is readable), plus failures
     ref_clauses = (
         ["no-type", "unsupported-type", "dotted-name-without-instance", "bb_output-multiple-loads", "bb_output-non-buf-load", "unloaded"]
         + [f"fanin-on-{t}" for t in sorted(NO_FANIN)]
@@ -276,25 +178,28 @@ def run(chk):
         + [f"undriven-{t}" for t in sorted(SINGLE_FANIN | MULTI_FANIN)]
         + [f"single-input-{t}" for t in sorted(MULTI_FANIN)]
     )
-    missed = {k[1][len("missed:"):] for k in bad if k[0] == "C20.N.rule-missed"}
     for cl in ref_clauses:
-        st = bad.get(("C20.N.rule-missed", f"missed:{cl}"))
-        chk.ob("C20.N.rule-missed", f"missed:{cl}", cl not in missed, file=FILE, func="lint", line=node_loop.lineno,
-               fact={"abstract_state_not_reported": st} if st else {"clause": cl, "reported_in_all_states": True},
-               expect="handle(...) reached in every abstract state that violates this documented rule")
+        hits = {k: v for k, v in bad.items() if k[0] == "C20.N.rule-missed" and k[1] in (f"missed:{cl}", f"missed:{cl}:accumulating-mode")}
+        if not hits:
+            chk.ob("C20.N.rule-missed", f"missed:{cl}", True, file=FILE, func="lint", line=fn.lineno, fact={"clause": cl, "reported_in_all_states": True})
+        for (rule, key), st in hits.items():
+            chk.ob(rule, key, False, file=FILE, func="lint", line=fn.lineno, fact={"abstract_state_not_reported": st}, expect="ValueError in every abstract state that violates this documented rule (both fail_fast modes)")
     for (rule, key), st in bad.items():
         if rule == "C20.N.rule-missed":
             continue
-        chk.ob(rule, key, False, file=FILE, func="lint", line=node_loop.lineno, fact={"abstract_state": st},
+        chk.ob(rule, key, False, file=FILE, func="lint", line=fn.lineno, fact={"abstract_state": st},
                expect="no report in a state violating no documented rule" if "spurious" in rule else "only ValueError may escape lint")
     if not any(r == "C20.N.only-ValueError-escapes" for r, _ in bad):
-        chk.ob("C20.N.only-ValueError-escapes", "lint::per-node loop", True, file=FILE, func="lint", line=node_loop.lineno,
-               fact={"states": n_states * 2, "escapes": 0})
+        chk.ob("C20.N.only-ValueError-escapes", "lint::all abstract states", True, file=FILE, func="lint", line=fn.lineno, fact={"states": n_states * 2, "escapes": 0})
     if not any(r == "C20.N.spurious-report" for r, _ in bad):
-        chk.ob("C20.N.spurious-report", "lint::per-node loop", True, file=FILE, func="lint", line=node_loop.lineno,
-               fact={"states": n_states * 2, "spurious": 0})
-    chk.extra["abstract_states_node_loop"] = n_states * 2
-    chk.floor("abstract states tabulated for the per-node loop", n_states, 1000)
+        chk.ob("C20.N.spurious-report", "lint::all abstract states", True, file=FILE, func="lint", line=fn.lineno, fact={"states": n_states * 2, "spurious": 0})
+    chk.extra["abstract_states_node_predicate"] = n_states * 2
+    chk.floor("abstract states tabulated for the node predicate", n_states, 1000)
+
+    class _BB:
+        lineno = fn.lineno
+
+    bb_loop = _BB()
 
     # ---- P: pin predicate (whole function evaluated on registry models) -----
     # Robust to any restructuring of the blackbox section: lint's body is evaluated on model circuits whose
